@@ -1,7 +1,714 @@
-import RbdlProofs.Lemmas.Rot
-/- C15 — property theorems (being filled in) -/
+import RbdlProofs.Lemmas.Model15
+/-
+  C15 — `Body::Join`, `Body::Separate` and the inertial-parameter setters.
+
+  "Joining two bodies gives the mass, centre of mass and centroidal inertia of their rigid union for
+  every relative pose, and separating the same body again restores the original parameters, including
+  when the remainder is massless.  Changing parameters through the setters yields the same model as
+  building it from scratch with the new parameters."
+
+  `α` is any field with decidable equality; "symmetric" is `I.transpose = I`.  Every theorem is
+  followed by an `example` instantiating it on a concrete instance over `Rat` (`Rbdl.C15.Ex`:
+  the 3-4-5 rotation + translation of C16, non-diagonal inertias, off-origin centres of mass).
+  Hypotheses that turned out to be unnecessary are dropped (see the remarks at each theorem).
+-/
 namespace Rbdl.C15
 open Lean.Grind Rbdl
-variable {α : Type} [CommRing α]
-theorem placeholder_rot_one : (M3.one : M3 α).IsRot := M3.isRot_one
+variable {α : Type} [Field α] [DecidableEq α]
+
+/-! ### 1. spatial inertias add -/
+
+/-- 1 : all 10 fields of the spatial inertia of the joined body = `I_a + Xᵀ I_b X`.
+    Holds in both branches (also the early return for a massless `b` with zero inertia).
+    Neither symmetry of `b.inertia` nor `a.mass + b.mass ≠ 0` is needed: both sides read only the
+    lower triangle, and success of `Join` already excludes a zero total mass. -/
+theorem join_toRBI {a b u : Body α} {X : XT α} (hX : X.E.IsRot) (h : a.join X b = some u) :
+    u.toRBI = a.toRBI + X.applyTransposeRBI b.toRBI := by
+  rw [Body.applyTransposeRBI_toRBI X hX]
+  by_cases hb : b.mass = 0 ∧ b.inertia = M3.zero
+  · rw [Body.join_null hb] at h
+    cases h
+    rw [Body.transformInertiaToBodyFrame_eq, hb.1, hb.2]
+    alg_ext
+  · by_cases hM : a.mass + b.mass = 0
+    · rw [Body.join_zeroMass hb hM] at h; cases h
+    · rw [Body.join_eq hb hM] at h
+      cases h
+      have hC := Body.joinCom_spec (X := X) hM
+      rw [Body.toRBI_eq, Body.toRBI_eq]
+      simp only [Body.originInertia]
+      generalize a.joinCom X b = C at hC ⊢
+      generalize Body.transformInertiaToBodyFrame X b = T
+      generalize Body.comIn X b = c' at hC ⊢
+      have hx := congrArg V3.x hC
+      have hy := congrArg V3.y hC
+      have hz := congrArg V3.z hC
+      simp only [alg] at hx hy hz
+      ext <;> simp only [alg] <;> grind
+
+/-- 1, with the hypotheses as requested (two of them are not used) -/
+theorem join_toRBI' {a b u : Body α} {X : XT α} (hX : X.E.IsRot) (h : a.join X b = some u)
+    (_hb : b.inertia.transpose = b.inertia) (_hM : a.mass + b.mass ≠ 0) :
+    u.toRBI = a.toRBI + X.applyTransposeRBI b.toRBI := join_toRBI hX h
+
+/-! ### 3. when `Join` succeeds -/
+
+/-- 3 : `Join` raises the library error exactly when the total mass is zero and `b` is not the
+    trivial (massless, zero-inertia) body -/
+theorem join_eq_none_iff (a b : Body α) (X : XT α) :
+    a.join X b = none ↔ a.mass + b.mass = 0 ∧ ¬(b.mass = 0 ∧ b.inertia = M3.zero) := by
+  by_cases hb : b.mass = 0 ∧ b.inertia = M3.zero
+  · simp [Body.join_null hb, hb]
+  · by_cases hM : a.mass + b.mass = 0
+    · simp [Body.join_zeroMass hb hM, hb, hM]
+    · simp [Body.join_eq hb hM, hM]
+
+/-- 3a -/
+theorem join_isSome (a b : Body α) (X : XT α) (hM : a.mass + b.mass ≠ 0) :
+    (a.join X b).isSome := by
+  cases h : a.join X b with
+  | some u => rfl
+  | none => exact absurd ((join_eq_none_iff a b X).1 h).1 hM
+example : (Ex.A.join Ex.X Ex.B).isSome := join_isSome _ _ _ Ex.AB_mass
+
+/-- 3b : the library error -/
+theorem join_none (a b : Body α) (X : XT α) (ha : a.mass = 0) (hb : b.mass = 0)
+    (hI : b.inertia ≠ M3.zero) : a.join X b = none :=
+  (join_eq_none_iff a b X).2 ⟨by rw [ha, hb]; grind, fun h => hI h.2⟩
+example : Ex.Z0.join Ex.X Ex.Z = none :=
+  join_none _ _ _ rfl rfl (by simp only [alg]; intro h; injection h with h; grind)
+
+example : ∃ u, Ex.A.join Ex.X Ex.B = some u
+    ∧ u.toRBI = Ex.A.toRBI + Ex.X.applyTransposeRBI Ex.B.toRBI := by
+  obtain ⟨u, hu⟩ := Option.isSome_iff_exists.1 (join_isSome Ex.A Ex.B Ex.X Ex.AB_mass)
+  exact ⟨u, hu, join_toRBI Ex.X_isRot hu⟩
+example : ∃ u, Ex.A.join Ex.X Ex.B = some u
+    ∧ u.toRBI = Ex.A.toRBI + Ex.X.applyTransposeRBI Ex.B.toRBI := by
+  obtain ⟨u, hu⟩ := Option.isSome_iff_exists.1 (join_isSome Ex.A Ex.B Ex.X Ex.AB_mass)
+  exact ⟨u, hu, join_toRBI' Ex.X_isRot hu Ex.B_symm Ex.AB_mass⟩
+/-- the early-return branch (`b` massless with zero inertia) -/
+example : ∃ u, Ex.A.join Ex.X Ex.Z0 = some u
+    ∧ u.toRBI = Ex.A.toRBI + Ex.X.applyTransposeRBI Ex.Z0.toRBI :=
+  ⟨Ex.A, Body.join_null ⟨rfl, rfl⟩, join_toRBI Ex.X_isRot (Body.join_null ⟨rfl, rfl⟩)⟩
+
+/-- the rotation hypothesis of 1 cannot be dropped (a stretch along x) -/
+example : ∃ (a b u : Body Rat) (X : XT Rat), a.join X b = some u
+    ∧ u.toRBI ≠ a.toRBI + X.applyTransposeRBI b.toRBI := by
+  have hb : ¬((⟨1, ⟨1, 1, 0⟩, M3.zero, false⟩ : Body Rat).mass = 0
+      ∧ (⟨1, ⟨1, 1, 0⟩, M3.zero, false⟩ : Body Rat).inertia = M3.zero) := by
+    intro h; have := h.1; simp only at this; grind
+  have hM : (⟨1, V3.zero, M3.zero, false⟩ : Body Rat).mass
+      + (⟨1, ⟨1, 1, 0⟩, M3.zero, false⟩ : Body Rat).mass ≠ 0 := by simp only; grind
+  refine ⟨⟨1, V3.zero, M3.zero, false⟩, ⟨1, ⟨1, 1, 0⟩, M3.zero, false⟩, _,
+    ⟨⟨2, 0, 0, 0, 1, 0, 0, 0, 1⟩, V3.zero⟩, Body.join_eq hb hM, ?_⟩
+  intro h
+  have h' := congrArg RBI.Ixx h
+  simp only [Body.toRBI, Body.joinCom, Body.comIn, Body.originInertia,
+    Body.transformInertiaToBodyFrame_eq, alg] at h'
+  grind
+
+/-! ### 2. `Join` is the rigid union -/
+
+/-- 2 : mass, centre of mass and centroidal inertia of the joined body are those of the rigid union
+    defined through the parallel-axis theorem (`Spec.rigidUnion`), for every relative pose `X`
+    (`X.E` need not even be a rotation) and also when `b` is massless with zero inertia (the
+    requested hypothesis "`b` not trivial" is not needed: with `a.mass + b.mass ≠ 0` the early return
+    is the rigid union with nothing). -/
+theorem join_eq_rigidUnion {a b u : Body α} {X : XT α} (h : a.join X b = some u)
+    (ha : a.inertia.transpose = a.inertia) (hbs : b.inertia.transpose = b.inertia)
+    (hM : a.mass + b.mass ≠ 0) :
+    (u.mass, u.com, u.inertia)
+      = Spec.rigidUnion a.mass a.com a.inertia X.E X.r b.mass b.com b.inertia := by
+  rw [Spec.rigidUnion_eq]
+  have hC := Body.joinCom_spec (X := X) hM
+  by_cases hb : b.mass = 0 ∧ b.inertia = M3.zero
+  · rw [Body.join_null hb] at h
+    cases h
+    obtain ⟨hb0, hbI⟩ := hb
+    rw [hb0] at hM
+    have hCa : a.joinCom X b = a.com := by
+      ext <;> simp only [Body.joinCom, alg, hb0] <;> grind
+    rw [hCa, hb0, hbI]
+    simp only [Prod.mk.injEq]
+    refine ⟨by grind, trivial, ?_⟩
+    ext <;> simp only [alg, Spec.shiftInertia] <;> grind
+  · rw [Body.join_eq hb hM] at h
+    cases h
+    simp only [Prod.mk.injEq, true_and]
+    rw [← Spec.shiftInertia_core _ _ _ _ _ hC, Body.originInertia,
+      Body.transformInertiaToBodyFrame_eq, M3.lowSym_of_symm ha, M3.lowSym_of_symm hbs]
+    rfl
+example : ∃ u, Ex.A.join Ex.X Ex.B = some u ∧ (u.mass, u.com, u.inertia)
+    = Spec.rigidUnion Ex.A.mass Ex.A.com Ex.A.inertia Ex.X.E Ex.X.r
+        Ex.B.mass Ex.B.com Ex.B.inertia := by
+  obtain ⟨u, hu⟩ := Option.isSome_iff_exists.1 (join_isSome Ex.A Ex.B Ex.X Ex.AB_mass)
+  exact ⟨u, hu, join_eq_rigidUnion hu Ex.A_symm Ex.B_symm Ex.AB_mass⟩
+
+/-! ### 4, 5. `Separate` undoes `Join` -/
+
+/-- 4 (corrected) : separating the joined body restores mass, centre of mass and inertia.
+    The requested statement has the flag `false`; that is wrong in the early-return branch
+    (`b` massless with zero inertia), where both calls return the receiver unchanged, flag included.
+    Symmetry of `b.inertia` is not needed. -/
+theorem separate_join {a b : Body α} {X : XT α} (ha : a.inertia.transpose = a.inertia)
+    (hm : a.mass ≠ 0) (hM : a.mass + b.mass ≠ 0) :
+    (a.join X b).bind (fun u => u.separate X b)
+      = some ⟨a.mass, a.com, a.inertia,
+          decide (b.mass = 0 ∧ b.inertia = M3.zero) && a.isVirtual⟩ := by
+  by_cases hb : b.mass = 0 ∧ b.inertia = M3.zero
+  · rw [Body.join_null hb, Option.bind_some, Body.separate_null hb]
+    simp only [hb, and_self, decide_true, Bool.true_and]
+  · rw [Body.separate_join_lowSym hb hm hM, M3.lowSym_of_symm ha]
+    simp only [hb, decide_false, Bool.false_and]
+example : (Ex.A.join Ex.X Ex.B).bind (fun u => u.separate Ex.X Ex.B)
+    = some ⟨Ex.A.mass, Ex.A.com, Ex.A.inertia,
+        decide (Ex.B.mass = 0 ∧ Ex.B.inertia = M3.zero) && Ex.A.isVirtual⟩ :=
+  separate_join Ex.A_symm Ex.A_mass Ex.AB_mass
+
+/-- 4, as requested: true when the receiver is not virtual or `b` is not the trivial body -/
+theorem separate_join_false {a b : Body α} {X : XT α} (ha : a.inertia.transpose = a.inertia)
+    (hm : a.mass ≠ 0) (hM : a.mass + b.mass ≠ 0)
+    (hv : a.isVirtual = false ∨ ¬(b.mass = 0 ∧ b.inertia = M3.zero)) :
+    (a.join X b).bind (fun u => u.separate X b) = some ⟨a.mass, a.com, a.inertia, false⟩ := by
+  rw [separate_join ha hm hM]
+  rcases hv with hv | hv
+  · rw [hv, Bool.and_false]
+  · simp only [hv, decide_false, Bool.false_and]
+example : (Ex.A.join Ex.X Ex.B).bind (fun u => u.separate Ex.X Ex.B)
+    = some ⟨Ex.A.mass, Ex.A.com, Ex.A.inertia, false⟩ :=
+  separate_join_false Ex.A_symm Ex.A_mass Ex.AB_mass (Or.inl rfl)
+
+/-- counterexample to 4 as requested (flag `false` unconditionally): a virtual receiver and the
+    trivial body -/
+example : ∃ (a b : Body Rat) (X : XT Rat), X.E.IsRot ∧ a.inertia.transpose = a.inertia
+    ∧ b.inertia.transpose = b.inertia ∧ a.mass ≠ 0 ∧ a.mass + b.mass ≠ 0
+    ∧ (a.join X b).bind (fun u => u.separate X b) ≠ some ⟨a.mass, a.com, a.inertia, false⟩ := by
+  refine ⟨⟨1, V3.zero, M3.zero, true⟩, ⟨0, V3.zero, M3.zero, false⟩, XT.id, M3.isRot_one,
+    rfl, rfl, by grind, by grind, ?_⟩
+  rw [separate_join rfl (by grind) (by grind)]
+  simp
+
+/-- 4 without symmetry of the receiver's inertia: only the lower triangle comes back
+    (`Body.separate_join_lowSym`) -/
+example : ∃ (a b : Body Rat) (X : XT Rat), X.E.IsRot ∧ a.mass ≠ 0 ∧ a.mass + b.mass ≠ 0
+    ∧ (a.join X b).bind (fun u => u.separate X b) ≠ some ⟨a.mass, a.com, a.inertia, false⟩ := by
+  have hb : ¬((⟨1, V3.zero, M3.zero, false⟩ : Body Rat).mass = 0
+      ∧ (⟨1, V3.zero, M3.zero, false⟩ : Body Rat).inertia = M3.zero) := by
+    intro h; have := h.1; simp only at this; grind
+  refine ⟨⟨1, V3.zero, ⟨1, 1, 0, 0, 1, 0, 0, 0, 1⟩, false⟩, ⟨1, V3.zero, M3.zero, false⟩, XT.id,
+    M3.isRot_one, by simp only; grind, by simp only; grind, ?_⟩
+  rw [Body.separate_join_lowSym hb (by simp only; grind) (by simp only; grind)]
+  intro h
+  have h' := congrArg (fun o => o.map (fun u => u.inertia.m01)) h
+  simp only [Option.map_some, alg, Option.some.injEq] at h'
+  grind
+
+/-- 5 (general) : a massless receiver (any stored centre of mass, any symmetric inertia): the
+    remainder is massless again, its centre of mass is reset to the origin, its inertia restored;
+    no error. -/
+theorem separate_join_massless_gen {a b : Body α} {X : XT α}
+    (ha : a.inertia.transpose = a.inertia) (hm : a.mass = 0) (hbm : b.mass ≠ 0) :
+    (a.join X b).bind (fun u => u.separate X b) = some ⟨0, V3.zero, a.inertia, false⟩ := by
+  have hb : ¬(b.mass = 0 ∧ b.inertia = M3.zero) := fun h => hbm h.1
+  have hM : a.mass + b.mass ≠ 0 := by grind
+  rw [Body.join_eq hb hM, Option.bind_some]
+  have hm' : a.mass + b.mass - b.mass = 0 := by grind
+  rw [Body.separate_massless hb hm', Body.originInertia_join, Body.originInertia,
+    M3.lowSym_of_symm ha, hm]
+  generalize Body.transformInertiaToBodyFrame X b = T
+  simp only [Option.some.injEq, Body.mk.injEq, and_true, true_and]
+  ext <;> simp only [alg] <;> grind
+example : (Ex.Z.join Ex.X Ex.B).bind (fun u => u.separate Ex.X Ex.B)
+    = some ⟨0, V3.zero, Ex.Z.inertia, false⟩ :=
+  separate_join_massless_gen Ex.Z_symm rfl Ex.B_mass
+
+/-- 5 : the massless dummy link -/
+theorem separate_join_massless {b : Body α} {X : XT α} (v : Bool) (hbm : b.mass ≠ 0) :
+    ((⟨0, V3.zero, M3.zero, v⟩ : Body α).join X b).bind (fun u => u.separate X b)
+      = some ⟨0, V3.zero, M3.zero, false⟩ :=
+  separate_join_massless_gen (a := ⟨0, V3.zero, M3.zero, v⟩) rfl rfl hbm
+example : ((⟨0, V3.zero, M3.zero, true⟩ : Body Rat).join Ex.X Ex.B).bind
+    (fun u => u.separate Ex.X Ex.B) = some ⟨0, V3.zero, M3.zero, false⟩ :=
+  separate_join_massless true Ex.B_mass
+
+/-! ### 6. the setter core: separate the old body, join the new one -/
+
+/-- 6 : replacing the parameters `f` of a fixed body by `f'` (`Separate` then `Join`, as the setters
+    do) gives the mass, centre of mass and inertia of joining `f'` to the original parent — also when
+    the second `Join` fails (both sides are `none`), for any `f'` and any new placement `X'`. -/
+theorem setter_core {P f f' : Body α} {X X' : XT α} (hP : P.inertia.transpose = P.inertia)
+    (hm : P.mass ≠ 0) (hM : P.mass + f.mass ≠ 0) :
+    (((P.join X f).bind (fun u => u.separate X f)).bind (fun p => p.join X' f')).map Body.params
+      = (P.join X' f').map Body.params := by
+  rw [separate_join hP hm hM, Option.bind_some]
+  apply Body.join_params_congr
+  rfl
+example : (((Ex.A.join Ex.X Ex.B).bind (fun u => u.separate Ex.X Ex.B)).bind
+      (fun p => p.join Ex.X Ex.B')).map Body.params = (Ex.A.join Ex.X Ex.B').map Body.params :=
+  setter_core Ex.A_symm Ex.A_mass Ex.AB_mass
+
+/-- 6, massless parent (a dummy link: zero mass, centre of mass at the origin, any symmetric
+    inertia, in particular `⟨0, 0, 0, v⟩`) -/
+theorem setter_core_massless {P f f' : Body α} {X X' : XT α}
+    (hP : P.inertia.transpose = P.inertia) (hm : P.mass = 0) (hc : P.com = V3.zero)
+    (hf : f.mass ≠ 0) :
+    (((P.join X f).bind (fun u => u.separate X f)).bind (fun p => p.join X' f')).map Body.params
+      = (P.join X' f').map Body.params := by
+  rw [separate_join_massless_gen hP hm hf, Option.bind_some]
+  apply Body.join_params_congr
+  simp only [Body.params, hm, hc]
+example : (((Ex.Z0.join Ex.X Ex.B).bind (fun u => u.separate Ex.X Ex.B)).bind
+      (fun p => p.join Ex.X Ex.B')).map Body.params = (Ex.Z0.join Ex.X Ex.B').map Body.params :=
+  setter_core_massless rfl rfl rfl Ex.B_mass
+
+/-- 6, including the `is_virtual` flag: equality of the bodies, when the parent is not virtual or
+    the new body is not the trivial one -/
+theorem setter_core_eq {P f f' : Body α} {X X' : XT α} (hP : P.inertia.transpose = P.inertia)
+    (hm : P.mass ≠ 0) (hM : P.mass + f.mass ≠ 0)
+    (hv : P.isVirtual = false ∨ ¬(f'.mass = 0 ∧ f'.inertia = M3.zero)) :
+    ((P.join X f).bind (fun u => u.separate X f)).bind (fun p => p.join X' f')
+      = P.join X' f' := by
+  rw [separate_join hP hm hM, Option.bind_some]
+  rcases hv with hv | hf'
+  · obtain ⟨m, c, I, v⟩ := P
+    simp only at hv
+    subst hv
+    simp only [Bool.and_false]
+  · generalize (decide (f.mass = 0 ∧ f.inertia = M3.zero) && P.isVirtual) = v
+    by_cases hM' : P.mass + f'.mass = 0
+    · rw [Body.join_zeroMass (a := P) hf' hM',
+        Body.join_zeroMass (a := ⟨P.mass, P.com, P.inertia, v⟩) hf' hM']
+    · rw [Body.join_eq (a := P) hf' hM',
+        Body.join_eq (a := ⟨P.mass, P.com, P.inertia, v⟩) hf' hM']
+      rfl
+example : ((Ex.A.join Ex.X Ex.B).bind (fun u => u.separate Ex.X Ex.B)).bind
+      (fun p => p.join Ex.X Ex.B') = Ex.A.join Ex.X Ex.B' :=
+  setter_core_eq Ex.A_symm Ex.A_mass Ex.AB_mass (Or.inl rfl)
+
+/-- 6, massless parent, including the flag -/
+theorem setter_core_eq_massless {P f f' : Body α} {X X' : XT α}
+    (hP : P.inertia.transpose = P.inertia) (hm : P.mass = 0) (hc : P.com = V3.zero)
+    (hf : f.mass ≠ 0)
+    (hv : P.isVirtual = false ∨ ¬(f'.mass = 0 ∧ f'.inertia = M3.zero)) :
+    ((P.join X f).bind (fun u => u.separate X f)).bind (fun p => p.join X' f')
+      = P.join X' f' := by
+  rw [separate_join_massless_gen hP hm hf, Option.bind_some]
+  obtain ⟨m, c, I, v⟩ := P
+  simp only at hm hc hv
+  subst hm hc
+  rcases hv with hv | hf'
+  · subst hv; rfl
+  · by_cases hM' : (0 : α) + f'.mass = 0
+    · rw [Body.join_zeroMass (a := ⟨0, V3.zero, I, v⟩) hf' hM',
+        Body.join_zeroMass (a := ⟨0, V3.zero, I, false⟩) hf' hM']
+    · rw [Body.join_eq (a := ⟨0, V3.zero, I, v⟩) hf' hM',
+        Body.join_eq (a := ⟨0, V3.zero, I, false⟩) hf' hM']
+      rfl
+example : ((Ex.Z0.join Ex.X Ex.B).bind (fun u => u.separate Ex.X Ex.B)).bind
+      (fun p => p.join Ex.X Ex.B') = Ex.Z0.join Ex.X Ex.B' :=
+  setter_core_eq_massless rfl rfl rfl Ex.B_mass (Or.inr (fun h => by
+    have := h.1; simp only [alg] at this; grind))
+
+/-! ### 7. spatial inertias subtract -/
+
+/-- 7 : `Separate` subtracts spatial inertias (all 10 fields), when the remainder has mass.
+    No symmetry hypothesis is needed. -/
+theorem toRBI_separate {u b r : Body α} {X : XT α} (hX : X.E.IsRot)
+    (h : u.separate X b = some r) (hm : u.mass - b.mass ≠ 0) :
+    r.toRBI + X.applyTransposeRBI b.toRBI = u.toRBI := by
+  rw [Body.applyTransposeRBI_toRBI X hX]
+  by_cases hb : b.mass = 0 ∧ b.inertia = M3.zero
+  · rw [Body.separate_null hb] at h
+    cases h
+    rw [Body.transformInertiaToBodyFrame_eq, hb.1, hb.2]
+    alg_ext
+  · rw [Body.separate_eq hb hm] at h
+    cases h
+    have hC := Body.sepCom_spec (X := X) hm
+    rw [Body.toRBI_eq, Body.toRBI_eq]
+    simp only [Body.originInertia]
+    generalize u.sepCom X b = C at hC ⊢
+    generalize Body.transformInertiaToBodyFrame X b = T
+    generalize Body.comIn X b = c' at hC ⊢
+    have hx := congrArg V3.x hC
+    have hy := congrArg V3.y hC
+    have hz := congrArg V3.z hC
+    simp only [alg] at hx hy hz
+    ext <;> simp only [alg] <;> grind
+example : ∃ r, Ex.B'.separate Ex.X Ex.B = some r
+    ∧ r.toRBI + Ex.X.applyTransposeRBI Ex.B.toRBI = Ex.B'.toRBI := by
+  have hb : ¬(Ex.B.mass = 0 ∧ Ex.B.inertia = M3.zero) := fun h => Ex.B_mass h.1
+  have hm : Ex.B'.mass - Ex.B.mass ≠ 0 := by simp only [alg]; grind
+  exact ⟨_, Body.separate_eq hb hm, toRBI_separate Ex.X_isRot (Body.separate_eq hb hm) hm⟩
+
+/-- 7, massless remainder: mass and rotational inertia still subtract; the first moment `h` of the
+    remainder is set to zero whatever `u.mass * u.com - b.mass * (Eᵀ c_b + r)` was. -/
+theorem toRBI_separate_massless {u b r : Body α} {X : XT α} (hX : X.E.IsRot)
+    (h : u.separate X b = some r) (hb : ¬(b.mass = 0 ∧ b.inertia = M3.zero))
+    (hm : u.mass - b.mass = 0) :
+    r.toRBI + X.applyTransposeRBI b.toRBI
+      = { u.toRBI with h := b.mass * (X.E.tmulVec b.com + X.r) } := by
+  rw [Body.applyTransposeRBI_toRBI X hX]
+  rw [Body.separate_massless hb hm] at h
+  cases h
+  rw [Body.toRBI_eq, Body.toRBI_eq]
+  simp only [Body.originInertia, Body.comIn]
+  generalize Body.transformInertiaToBodyFrame X b = T
+  generalize X.E.tmulVec b.com + X.r = c'
+  ext <;> simp only [alg] <;> grind
+example : ∃ r, Ex.B.separate Ex.X Ex.B = some r ∧ r.toRBI + Ex.X.applyTransposeRBI Ex.B.toRBI
+    = { Ex.B.toRBI with h := Ex.B.mass * (Ex.X.E.tmulVec Ex.B.com + Ex.X.r) } := by
+  have hb : ¬(Ex.B.mass = 0 ∧ Ex.B.inertia = M3.zero) := fun h => Ex.B_mass h.1
+  have hm : Ex.B.mass - Ex.B.mass = 0 := by grind
+  exact ⟨_, Body.separate_massless hb hm,
+    toRBI_separate_massless Ex.X_isRot (Body.separate_massless hb hm) hb hm⟩
+
+/-- 7 fails for a massless remainder (the hypothesis `u.mass - b.mass ≠ 0` cannot be dropped) -/
+example : ∃ (u b r : Body Rat) (X : XT Rat), X.E.IsRot ∧ u.separate X b = some r
+    ∧ r.toRBI + X.applyTransposeRBI b.toRBI ≠ u.toRBI := by
+  have hb : ¬((⟨1, ⟨1, 0, 0⟩, M3.zero, false⟩ : Body Rat).mass = 0
+      ∧ (⟨1, ⟨1, 0, 0⟩, M3.zero, false⟩ : Body Rat).inertia = M3.zero) := by
+    intro h; have := h.1; simp only at this; grind
+  have hM : (⟨1, V3.zero, M3.zero, false⟩ : Body Rat).mass
+      - (⟨1, ⟨1, 0, 0⟩, M3.zero, false⟩ : Body Rat).mass = 0 := by simp only; grind
+  refine ⟨⟨1, V3.zero, M3.zero, false⟩, ⟨1, ⟨1, 0, 0⟩, M3.zero, false⟩, _, XT.id,
+    M3.isRot_one, Body.separate_massless hb hM, ?_⟩
+  intro h
+  have h' := congrArg (fun I => I.h.x) h
+  simp only [Body.toRBI, Body.originInertia, Body.transformInertiaToBodyFrame_eq, alg] at h'
+  grind
+
+/-! ### the setters on the model
+
+`SetBodyMass`, `SetBodyInertia`, `SetBodyCenterOfMass`, `SetBodyInertialParameters` are
+`ModelS.setInertial` with the corresponding parameter update (`updB` on a movable body, `updF` on a
+fixed body).  The theorems compare the setter applied to the body that has just been added with
+adding the body with the new parameters instead ("building it from scratch").
+Well-formedness of the model used below: one spatial inertia per body (`I.length = bodies.length`),
+fewer bodies than the fixed-body discriminator, no wrap-around of the fixed-body id. -/
+
+/-- setters, movable body, one construction step (`AddBody` for a joint with its own body) -/
+theorem setInertial_addBodyMovable {m : ModelS α} {parent : Nat} {frame : XT α} {j : Joint α}
+    {b : Body α} {name : String} {m1 : ModelS α} {id : Nat}
+    (updB : Body α → Body α) (updF : FixedBody α → FixedBody α)
+    (hadd : m.addBodyMovable parent frame j b name = (m1, .ok id))
+    (hlen : m.I.length = m.bodies.length) (hsmall : m.bodies.length < fixedDisc) :
+    m1.setInertial id updB updF
+      = ((m.addBodyMovable parent frame j (updB b) name).1, .ok ()) :=
+  ModelS.setterOK_addBodyMovable m parent frame j name hlen hsmall b m1 id hadd updB updF
+example (updB : Body Rat → Body Rat) (updF : FixedBody Rat → FixedBody Rat) :
+    (ModelS.init.addBodyMovable 0 Ex.X Ex.jz Ex.A "a").1.setInertial 1 updB updF
+      = ((ModelS.init.addBodyMovable 0 Ex.X Ex.jz (updB Ex.A) "a").1, .ok ()) :=
+  setInertial_addBodyMovable updB updF rfl rfl (by decide)
+
+/-- setters, movable body: `Model::AddBody` with any joint type except the fixed joint (single-DoF,
+    3-DoF, custom proxy, emulated multi-DoF chains, floating base: the returned id is the body that
+    carries `b`), then a setter on the returned id = `AddBody` with the updated body. -/
+theorem setInertial_addBody {m : ModelS α} {parent : Nat} {frame : XT α} {j : Joint α}
+    {b : Body α} {name : String} {m1 : ModelS α} {id : Nat}
+    (updB : Body α → Body α) (updF : FixedBody α → FixedBody α)
+    (hjt : j.jt ≠ .fixed)
+    (hadd : m.addBody parent frame j b name = (m1, .ok id))
+    (hlen : m.I.length = m.bodies.length)
+    (hsmall : m.bodies.length + j.axes.length + 1 < fixedDisc) :
+    m1.setInertial id updB updF = ((m.addBody parent frame j (updB b) name).1, .ok ()) :=
+  ModelS.setterOK_addBody m parent frame j name hjt hlen hsmall b m1 id hadd updB updF
+example (updB : Body Rat → Body Rat) (updF : FixedBody Rat → FixedBody Rat) :
+    Ex.mA.setInertial 1 updB updF
+      = ((ModelS.init.addBody 0 Ex.X Ex.jz (updB Ex.A) "a").1, .ok ()) :=
+  setInertial_addBody updB updF (by decide) Ex.mA_add rfl (by decide)
+/-- a 3-DoF emulated joint (two massless virtual bodies, then the body) -/
+example (updB : Body Rat → Body Rat) (updF : FixedBody Rat → FixedBody Rat) :
+    (ModelS.init.addBody 0 Ex.X (Joint.ofAxes [sv6 0 0 1 0 0 0, sv6 0 1 0 0 0 0, sv6 0 0 0 1 0 0])
+        Ex.A "a").1.setInertial 3 updB updF
+      = ((ModelS.init.addBody 0 Ex.X
+          (Joint.ofAxes [sv6 0 0 1 0 0 0, sv6 0 1 0 0 0 0, sv6 0 0 0 1 0 0]) (updB Ex.A) "a").1,
+          .ok ()) :=
+  setInertial_addBody updB updF (by decide) rfl rfl (by decide)
+
+/-- the same for `AddBodyCustomJoint` -/
+theorem setInertial_addBodyCustomJoint {m : ModelS α} {parent : Nat} {frame : XT α}
+    {k : CustomKind} {b : Body α} {name : String} {m1 : ModelS α} {id : Nat}
+    (updB : Body α → Body α) (updF : FixedBody α → FixedBody α)
+    (hadd : m.addBodyCustomJoint parent frame k b name = (m1, .ok id))
+    (hlen : m.I.length = m.bodies.length) (hsmall : m.bodies.length + 4 < fixedDisc) :
+    m1.setInertial id updB updF
+      = ((m.addBodyCustomJoint parent frame k (updB b) name).1, .ok ()) :=
+  ModelS.setterOK_addBodyCustomJoint m parent frame k name hlen hsmall b m1 id hadd updB updF
+example (updB : Body Rat → Body Rat) (updF : FixedBody Rat → FixedBody Rat) :
+    (ModelS.init.addBodyCustomJoint 0 Ex.X .cyl Ex.A "a").1.setInertial 1 updB updF
+      = ((ModelS.init.addBodyCustomJoint 0 Ex.X .cyl (updB Ex.A) "a").1, .ok ()) :=
+  setInertial_addBodyCustomJoint updB updF rfl rfl (by decide)
+
+/-- the four setters on a movable body -/
+theorem setBodyMass_addBody {m : ModelS α} {parent : Nat} {frame : XT α} {j : Joint α}
+    {b : Body α} {name : String} {m1 : ModelS α} {id : Nat} (hjt : j.jt ≠ .fixed)
+    (hadd : m.addBody parent frame j b name = (m1, .ok id))
+    (hlen : m.I.length = m.bodies.length)
+    (hsmall : m.bodies.length + j.axes.length + 1 < fixedDisc) (mass' : α) :
+    m1.setBodyMass id mass'
+      = ((m.addBody parent frame j { b with mass := mass' } name).1, .ok ()) :=
+  setInertial_addBody _ _ hjt hadd hlen hsmall
+theorem setBodyInertia_addBody {m : ModelS α} {parent : Nat} {frame : XT α} {j : Joint α}
+    {b : Body α} {name : String} {m1 : ModelS α} {id : Nat} (hjt : j.jt ≠ .fixed)
+    (hadd : m.addBody parent frame j b name = (m1, .ok id))
+    (hlen : m.I.length = m.bodies.length)
+    (hsmall : m.bodies.length + j.axes.length + 1 < fixedDisc) (I' : M3 α) :
+    m1.setBodyInertia id I'
+      = ((m.addBody parent frame j { b with inertia := I' } name).1, .ok ()) :=
+  setInertial_addBody _ _ hjt hadd hlen hsmall
+theorem setBodyCenterOfMass_addBody {m : ModelS α} {parent : Nat} {frame : XT α} {j : Joint α}
+    {b : Body α} {name : String} {m1 : ModelS α} {id : Nat} (hjt : j.jt ≠ .fixed)
+    (hadd : m.addBody parent frame j b name = (m1, .ok id))
+    (hlen : m.I.length = m.bodies.length)
+    (hsmall : m.bodies.length + j.axes.length + 1 < fixedDisc) (c' : V3 α) :
+    m1.setBodyCenterOfMass id c'
+      = ((m.addBody parent frame j { b with com := c' } name).1, .ok ()) :=
+  setInertial_addBody _ _ hjt hadd hlen hsmall
+theorem setBodyInertialParameters_addBody {m : ModelS α} {parent : Nat} {frame : XT α}
+    {j : Joint α} {b : Body α} {name : String} {m1 : ModelS α} {id : Nat} (hjt : j.jt ≠ .fixed)
+    (hadd : m.addBody parent frame j b name = (m1, .ok id))
+    (hlen : m.I.length = m.bodies.length)
+    (hsmall : m.bodies.length + j.axes.length + 1 < fixedDisc) (mass' : α) (I' : M3 α) (c' : V3 α) :
+    m1.setBodyInertialParameters id mass' I' c'
+      = ((m.addBody parent frame j { b with mass := mass', inertia := I', com := c' } name).1,
+          .ok ()) :=
+  setInertial_addBody _ _ hjt hadd hlen hsmall
+example : Ex.mA.setBodyMass 1 7
+    = ((ModelS.init.addBody 0 Ex.X Ex.jz { Ex.A with mass := 7 } "a").1, .ok ()) :=
+  setBodyMass_addBody (by decide) Ex.mA_add rfl (by decide) 7
+example : Ex.mA.setBodyInertia 1 Ex.Ic2
+    = ((ModelS.init.addBody 0 Ex.X Ex.jz { Ex.A with inertia := Ex.Ic2 } "a").1, .ok ()) :=
+  setBodyInertia_addBody (by decide) Ex.mA_add rfl (by decide) _
+example : Ex.mA.setBodyCenterOfMass 1 ⟨1, 2, 3⟩
+    = ((ModelS.init.addBody 0 Ex.X Ex.jz { Ex.A with com := ⟨1, 2, 3⟩ } "a").1, .ok ()) :=
+  setBodyCenterOfMass_addBody (by decide) Ex.mA_add rfl (by decide) _
+example : Ex.mA.setBodyInertialParameters 1 7 Ex.Ic2 ⟨1, 2, 3⟩
+    = ((ModelS.init.addBody 0 Ex.X Ex.jz
+        { Ex.A with mass := 7, inertia := Ex.Ic2, com := ⟨1, 2, 3⟩ } "a").1, .ok ()) :=
+  setBodyInertialParameters_addBody (by decide) Ex.mA_add rfl (by decide) _ _ _
+
+/-- setters, fixed body: a setter applied to the fixed body that has just been added (separate the
+    old parameters from the movable parent, join the new ones) gives the model obtained by adding
+    the body with the new parameters instead.
+    `fb` is the record of the new fixed body, `P` the movable parent it was merged into (before the
+    merge).  The parent has mass, or it is a massless link with centre of mass at the origin and the
+    old body has mass; `hM'` says that the from-scratch construction does not raise the zero-mass
+    error; `hv` concerns only the `is_virtual` flag. -/
+theorem setInertial_addBodyFixed {m : ModelS α} {parent : Nat} {frame : XT α} {b : Body α}
+    {name : String} {m1 : ModelS α} {id : Nat}
+    (updB : Body α → Body α) (updF : FixedBody α → FixedBody α)
+    (hupd : ∀ f, (updF f).movableParent = f.movableParent
+      ∧ (updF f).parentTransform = f.parentTransform)
+    (hadd : m.addBodyFixed parent frame b name = (m1, .ok id))
+    (hid : id < 4294967295)
+    (fb : FixedBody α) (hfb : fb = m1.fixedBody (id - fixedDisc))
+    (P : Body α) (hPdef : P = m.body fb.movableParent)
+    (hrange : fb.movableParent < m.bodies.length)
+    (hP : P.inertia.transpose = P.inertia)
+    (hmass : P.mass ≠ 0 ∨ (P.mass = 0 ∧ P.com = V3.zero ∧ b.mass ≠ 0))
+    (hM' : P.mass + (updF fb).mass ≠ 0 ∨ ((updF fb).mass = 0 ∧ (updF fb).inertia = M3.zero))
+    (hv : P.isVirtual = false ∨ ¬((updF fb).mass = 0 ∧ (updF fb).inertia = M3.zero)) :
+    m1.setInertial id updB updF
+      = ((m.addBodyFixed parent frame (updF fb).toBody name).1, .ok ()) := by
+  rw [ModelS.addBodyFixed_fixedBody hadd] at hfb
+  obtain ⟨_, _, pb, hpb, _⟩ := ModelS.addBodyFixed_ok hadd
+  subst hfb
+  simp only at hPdef hrange
+  rw [← hPdef] at hpb
+  generalize hb'' : (updF ⟨b.mass, b.com, b.inertia, (m.fixedTarget parent frame).1,
+    (m.fixedTarget parent frame).2⟩).toBody = b'' at *
+  have hb''m : b''.mass = (updF ⟨b.mass, b.com, b.inertia, (m.fixedTarget parent frame).1,
+      (m.fixedTarget parent frame).2⟩).mass := by rw [← hb'']; rfl
+  have hb''I : b''.inertia = (updF ⟨b.mass, b.com, b.inertia, (m.fixedTarget parent frame).1,
+      (m.fixedTarget parent frame).2⟩).inertia := by rw [← hb'']; rfl
+  rw [← hb''m, ← hb''I] at hM' hv
+  -- the Body-level core
+  have hcore : ((P.join (m.fixedTarget parent frame).2 b).bind
+      (fun u => u.separate (m.fixedTarget parent frame).2 b)).bind
+      (fun p => p.join (m.fixedTarget parent frame).2 b'')
+      = P.join (m.fixedTarget parent frame).2 b'' := by
+    rcases hmass with hm | ⟨hm, hc, hbm⟩
+    · have hM : P.mass + b.mass ≠ 0 := by
+        intro h0
+        by_cases hb : b.mass = 0 ∧ b.inertia = M3.zero
+        · rw [hb.1] at h0; exact hm (by grind)
+        · rw [Body.join_zeroMass hb h0] at hpb; cases hpb
+      exact setter_core_eq hP hm hM hv
+    · exact setter_core_eq_massless hP hm hc hbm hv
+  -- the from-scratch `Join` succeeds
+  obtain ⟨p2, hp2⟩ : ∃ p2, P.join (m.fixedTarget parent frame).2 b'' = some p2 := by
+    rcases hM' with hM' | hnull
+    · exact Option.isSome_iff_exists.1 (join_isSome _ _ _ hM')
+    · exact ⟨P, Body.join_null hnull⟩
+  rw [hpb, Option.bind_some, hp2] at hcore
+  obtain ⟨p1, hp1, hp1j⟩ := Option.bind_eq_some_iff.1 hcore
+  rw [Body.separate_congr_right (b := b) (b' := ⟨b.mass, b.com, b.inertia, false⟩) rfl] at hp1
+  rw [hPdef] at hpb hp2
+  rw [← hb''] at hp1j hp2 ⊢
+  exact ModelS.setInertial_addBodyFixed_aux updB updF hadd hid hupd hrange hpb hp1 hp1j hp2
+
+
+/-- setters, fixed body, through `Model::AddBody` with the fixed joint -/
+theorem setInertial_addBody_fixed {m : ModelS α} {parent : Nat} {frame : XT α} {j : Joint α}
+    {b : Body α} {name : String} {m1 : ModelS α} {id : Nat}
+    (updB : Body α → Body α) (updF : FixedBody α → FixedBody α)
+    (hupd : ∀ f, (updF f).movableParent = f.movableParent
+      ∧ (updF f).parentTransform = f.parentTransform)
+    (hjt : j.jt = .fixed)
+    (hadd : m.addBody parent frame j b name = (m1, .ok id))
+    (hid : id < 4294967295)
+    (fb : FixedBody α) (hfb : fb = m1.fixedBody (id - fixedDisc))
+    (P : Body α) (hPdef : P = m.body fb.movableParent)
+    (hrange : fb.movableParent < m.bodies.length)
+    (hP : P.inertia.transpose = P.inertia)
+    (hmass : P.mass ≠ 0 ∨ (P.mass = 0 ∧ P.com = V3.zero ∧ b.mass ≠ 0))
+    (hM' : P.mass + (updF fb).mass ≠ 0 ∨ ((updF fb).mass = 0 ∧ (updF fb).inertia = M3.zero))
+    (hv : P.isVirtual = false ∨ ¬((updF fb).mass = 0 ∧ (updF fb).inertia = M3.zero)) :
+    m1.setInertial id updB updF
+      = ((m.addBody parent frame j (updF fb).toBody name).1, .ok ()) := by
+  rw [ModelS.addBody_fixed _ _ _ _ _ _ hjt] at hadd ⊢
+  exact setInertial_addBodyFixed updB updF hupd hadd hid fb hfb P hPdef hrange hP hmass hM' hv
+
+/-- `SetBodyInertialParameters` on a fixed body -/
+theorem setBodyInertialParameters_addBody_fixed {m : ModelS α} {parent : Nat} {frame : XT α}
+    {j : Joint α} {b : Body α} {name : String} {m1 : ModelS α} {id : Nat}
+    (hjt : j.jt = .fixed)
+    (hadd : m.addBody parent frame j b name = (m1, .ok id))
+    (hid : id < 4294967295)
+    (P : Body α) (hPdef : P = m.body (m1.fixedBody (id - fixedDisc)).movableParent)
+    (hrange : (m1.fixedBody (id - fixedDisc)).movableParent < m.bodies.length)
+    (hP : P.inertia.transpose = P.inertia)
+    (hmass : P.mass ≠ 0 ∨ (P.mass = 0 ∧ P.com = V3.zero ∧ b.mass ≠ 0))
+    (mass' : α) (I' : M3 α) (c' : V3 α)
+    (hM' : P.mass + mass' ≠ 0 ∨ (mass' = 0 ∧ I' = M3.zero))
+    (hv : P.isVirtual = false ∨ ¬(mass' = 0 ∧ I' = M3.zero)) :
+    m1.setBodyInertialParameters id mass' I' c'
+      = ((m.addBody parent frame j ⟨mass', c', I', false⟩ name).1, .ok ()) :=
+  setInertial_addBody_fixed _ (fun f => { f with mass := mass', inertia := I', com := c' })
+    (fun _ => ⟨rfl, rfl⟩) hjt hadd hid _ rfl P hPdef hrange hP hmass hM' hv
+
+/-- `SetBodyMass` on a fixed body -/
+theorem setBodyMass_addBody_fixed {m : ModelS α} {parent : Nat} {frame : XT α}
+    {j : Joint α} {b : Body α} {name : String} {m1 : ModelS α} {id : Nat}
+    (hjt : j.jt = .fixed)
+    (hadd : m.addBody parent frame j b name = (m1, .ok id))
+    (hid : id < 4294967295)
+    (P : Body α) (hPdef : P = m.body (m1.fixedBody (id - fixedDisc)).movableParent)
+    (hrange : (m1.fixedBody (id - fixedDisc)).movableParent < m.bodies.length)
+    (hP : P.inertia.transpose = P.inertia)
+    (hmass : P.mass ≠ 0 ∨ (P.mass = 0 ∧ P.com = V3.zero ∧ b.mass ≠ 0))
+    (mass' : α)
+    (hM' : P.mass + mass' ≠ 0 ∨ (mass' = 0 ∧ b.inertia = M3.zero))
+    (hv : P.isVirtual = false ∨ ¬(mass' = 0 ∧ b.inertia = M3.zero)) :
+    m1.setBodyMass id mass'
+      = ((m.addBody parent frame j ⟨mass', b.com, b.inertia, false⟩ name).1, .ok ()) := by
+  have hfb := ModelS.addBodyFixed_fixedBody (by rw [← ModelS.addBody_fixed _ _ _ _ _ _ hjt]; exact hadd)
+  have h := setInertial_addBody_fixed (fun b => { b with mass := mass' })
+    (fun f => { f with mass := mass' })
+    (fun _ => ⟨rfl, rfl⟩) hjt hadd hid _ rfl P hPdef hrange hP hmass
+    (by simp only [hfb]; exact hM') (by simp only [hfb]; exact hv)
+  simp only [hfb, FixedBody.toBody] at h
+  exact h
+
+/-- `SetBodyInertia` on a fixed body -/
+theorem setBodyInertia_addBody_fixed {m : ModelS α} {parent : Nat} {frame : XT α}
+    {j : Joint α} {b : Body α} {name : String} {m1 : ModelS α} {id : Nat}
+    (hjt : j.jt = .fixed)
+    (hadd : m.addBody parent frame j b name = (m1, .ok id))
+    (hid : id < 4294967295)
+    (P : Body α) (hPdef : P = m.body (m1.fixedBody (id - fixedDisc)).movableParent)
+    (hrange : (m1.fixedBody (id - fixedDisc)).movableParent < m.bodies.length)
+    (hP : P.inertia.transpose = P.inertia)
+    (hmass : P.mass ≠ 0 ∨ (P.mass = 0 ∧ P.com = V3.zero ∧ b.mass ≠ 0))
+    (I' : M3 α)
+    (hM' : P.mass + b.mass ≠ 0 ∨ (b.mass = 0 ∧ I' = M3.zero))
+    (hv : P.isVirtual = false ∨ ¬(b.mass = 0 ∧ I' = M3.zero)) :
+    m1.setBodyInertia id I'
+      = ((m.addBody parent frame j ⟨b.mass, b.com, I', false⟩ name).1, .ok ()) := by
+  have hfb := ModelS.addBodyFixed_fixedBody (by rw [← ModelS.addBody_fixed _ _ _ _ _ _ hjt]; exact hadd)
+  have h := setInertial_addBody_fixed (fun b => { b with inertia := I' })
+    (fun f => { f with inertia := I' })
+    (fun _ => ⟨rfl, rfl⟩) hjt hadd hid _ rfl P hPdef hrange hP hmass
+    (by simp only [hfb]; exact hM') (by simp only [hfb]; exact hv)
+  simp only [hfb, FixedBody.toBody] at h
+  exact h
+
+/-- `SetBodyCenterOfMass` on a fixed body -/
+theorem setBodyCenterOfMass_addBody_fixed {m : ModelS α} {parent : Nat} {frame : XT α}
+    {j : Joint α} {b : Body α} {name : String} {m1 : ModelS α} {id : Nat}
+    (hjt : j.jt = .fixed)
+    (hadd : m.addBody parent frame j b name = (m1, .ok id))
+    (hid : id < 4294967295)
+    (P : Body α) (hPdef : P = m.body (m1.fixedBody (id - fixedDisc)).movableParent)
+    (hrange : (m1.fixedBody (id - fixedDisc)).movableParent < m.bodies.length)
+    (hP : P.inertia.transpose = P.inertia)
+    (hmass : P.mass ≠ 0 ∨ (P.mass = 0 ∧ P.com = V3.zero ∧ b.mass ≠ 0))
+    (c' : V3 α)
+    (hv : P.isVirtual = false ∨ ¬(b.mass = 0 ∧ b.inertia = M3.zero)) :
+    m1.setBodyCenterOfMass id c'
+      = ((m.addBody parent frame j ⟨b.mass, c', b.inertia, false⟩ name).1, .ok ()) := by
+  have hadd' : m.addBodyFixed parent frame b name = (m1, .ok id) := by
+    rw [← ModelS.addBody_fixed _ _ _ _ _ _ hjt]; exact hadd
+  have hfb := ModelS.addBodyFixed_fixedBody hadd'
+  -- the from-scratch `Join` succeeds because the original one did (same mass and inertia)
+  have hM' : P.mass + b.mass ≠ 0 ∨ (b.mass = 0 ∧ b.inertia = M3.zero) := by
+    obtain ⟨_, _, pb, hpb, _⟩ := ModelS.addBodyFixed_ok hadd'
+    rw [hfb] at hPdef
+    rw [← hPdef] at hpb
+    by_cases hb : b.mass = 0 ∧ b.inertia = M3.zero
+    · exact Or.inr hb
+    · refine Or.inl (fun h0 => ?_)
+      rw [Body.join_zeroMass hb h0] at hpb
+      cases hpb
+  have h := setInertial_addBody_fixed (fun b => { b with com := c' })
+    (fun f => { f with com := c' })
+    (fun _ => ⟨rfl, rfl⟩) hjt hadd hid _ rfl P hPdef hrange hP hmass
+    (by simp only [hfb]; exact hM') (by simp only [hfb]; exact hv)
+  simp only [hfb, FixedBody.toBody] at h
+  exact h
+
+
+/-! examples for the fixed-body setters: the model `mA` (one revolute body `A`) with `B` attached
+    by a fixed joint (`mB`); the movable parent is `A` -/
+section
+open Ex
+example (updB : Body Rat → Body Rat) :
+    mB.setInertial fixedDisc updB (fun f => { f with mass := 7, com := ⟨1, 2, 3⟩ })
+      = ((mA.addBodyFixed 1 X ⟨7, ⟨1, 2, 3⟩, B.inertia, false⟩ "b").1, .ok ()) := by
+  have hadd : mA.addBodyFixed 1 X B "b" = (mB, .ok fixedDisc) := by
+    rw [← ModelS.addBody_fixed mA 1 X jfix B "b" rfl]; exact mB_add
+  have h := setInertial_addBodyFixed updB (fun f => { f with mass := 7, com := ⟨1, 2, 3⟩ })
+    (fun _ => ⟨rfl, rfl⟩) hadd (by decide) _ rfl A (by rw [mB_fixedBody]; rfl) (by rw [mB_fixedBody]; decide)
+    A_symm (Or.inl A_mass) (Or.inl (by simp only [alg]; grind)) (Or.inl rfl)
+  rw [mB_fixedBody] at h
+  exact h
+example (updB : Body Rat → Body Rat) :
+    mB.setInertial fixedDisc updB (fun f => { f with mass := 7, com := ⟨1, 2, 3⟩ })
+      = ((mA.addBody 1 X jfix ⟨7, ⟨1, 2, 3⟩, B.inertia, false⟩ "b").1, .ok ()) := by
+  have h := setInertial_addBody_fixed updB (fun f => { f with mass := 7, com := ⟨1, 2, 3⟩ })
+    (fun _ => ⟨rfl, rfl⟩) rfl mB_add (by decide) _ rfl A (by rw [mB_fixedBody]; rfl)
+    (by rw [mB_fixedBody]; decide) A_symm (Or.inl A_mass) (Or.inl (by simp only [alg]; grind)) (Or.inl rfl)
+  rw [mB_fixedBody] at h
+  exact h
+example : mB.setBodyInertialParameters fixedDisc 7 Ic ⟨1, 2, 3⟩
+    = ((mA.addBody 1 X jfix ⟨7, ⟨1, 2, 3⟩, Ic, false⟩ "b").1, .ok ()) :=
+  setBodyInertialParameters_addBody_fixed rfl mB_add (by decide) A (by rw [mB_fixedBody]; rfl)
+    (by rw [mB_fixedBody]; decide) A_symm (Or.inl A_mass) 7 Ic ⟨1, 2, 3⟩
+    (Or.inl (by simp only [alg]; grind)) (Or.inl rfl)
+example : mB.setBodyMass fixedDisc 7
+    = ((mA.addBody 1 X jfix ⟨7, B.com, B.inertia, false⟩ "b").1, .ok ()) :=
+  setBodyMass_addBody_fixed rfl mB_add (by decide) A (by rw [mB_fixedBody]; rfl)
+    (by rw [mB_fixedBody]; decide) A_symm (Or.inl A_mass) 7
+    (Or.inl (by simp only [alg]; grind)) (Or.inl rfl)
+example : mB.setBodyInertia fixedDisc Ic
+    = ((mA.addBody 1 X jfix ⟨B.mass, B.com, Ic, false⟩ "b").1, .ok ()) :=
+  setBodyInertia_addBody_fixed rfl mB_add (by decide) A (by rw [mB_fixedBody]; rfl)
+    (by rw [mB_fixedBody]; decide) A_symm (Or.inl A_mass) Ic (Or.inl AB_mass) (Or.inl rfl)
+example : mB.setBodyCenterOfMass fixedDisc ⟨1, 2, 3⟩
+    = ((mA.addBody 1 X jfix ⟨B.mass, ⟨1, 2, 3⟩, B.inertia, false⟩ "b").1, .ok ()) :=
+  setBodyCenterOfMass_addBody_fixed rfl mB_add (by decide) A (by rw [mB_fixedBody]; rfl)
+    (by rw [mB_fixedBody]; decide) A_symm (Or.inl A_mass) ⟨1, 2, 3⟩ (Or.inl rfl)
+end
+
 end Rbdl.C15
